@@ -144,7 +144,7 @@ def check_case(case):
     cfgd = S.make_config(ctxs)
     kinds = "+".join(sorted({f for f, _ in case["faults"]}))
     places = "+".join(sorted({p for _, p in case["faults"]}))
-    sig0 = f"{PROP}|{fe}|faults={kinds}|placement={places}"
+    sig0 = f"{PROP}|{fe}|faults={kinds}"
     res = alpha.call(run_and_collect, fe, tab, cfgd)
     if isinstance(res, alpha.Raised):
         return [V(f"{sig0}|symptom=run-raises:{res.name}", f"{fe}: the run did not complete: {res.name}: {res.msg}", "completes", repr(res))], True, ("exc", res.name), 0, 1
